@@ -69,12 +69,31 @@ type srcCase struct {
 	Expect struct {
 		Leaves []srcLeafExp `json:"leaves"`
 		Error  bool         `json:"error"`
+		Over   bool         `json:"over"` // some leaf is supplied with a value outside its type's range
 	} `json:"expect"`
 	Garbage string `json:"garbage"` // C16: a text that replaces every supplied value
 	Seed    int    `json:"seed"`
 }
 
 type SLevel uint8
+
+// SItem is the element of the slice-of-struct leaf kind (decoders only)
+type SItem struct {
+	N int `dials:"n"`
+}
+
+// a literal outside the range of the narrow leaf kinds
+func overValue(kind string) (string, interface{}) {
+	switch kind {
+	case "int8":
+		return "200", 200
+	case "uint16":
+		return "70000", 70000
+	case "named":
+		return "300", 300
+	}
+	panic("harness: no out-of-range literal for " + kind)
+}
 
 var srcInitialisms = map[string]bool{"id": true, "http": true, "json": true, "url": true, "api": true, "ip": true, "uid": true}
 
@@ -140,6 +159,8 @@ func kindType(k string) reflect.Type {
 		return reflect.TypeOf(SLevel(0))
 	case "durs":
 		return reflect.TypeOf([]time.Duration(nil))
+	case "structs":
+		return reflect.TypeOf([]SItem(nil))
 	}
 	panic("harness: unknown kind " + k)
 }
@@ -213,6 +234,8 @@ func leafValue(kind string, id int) (reflect.Value, string, interface{}) {
 		return reflect.ValueOf(SLevel(id%200 + 1)), fmt.Sprint(id%200 + 1), id%200 + 1
 	case "durs":
 		return reflect.ValueOf([]time.Duration{time.Duration(id) * time.Second, time.Minute}), "", []interface{}{fmt.Sprintf("%ds", id), "1m0s"}
+	case "structs":
+		return reflect.ValueOf([]SItem{{N: id}, {N: id + 1}}), "", []interface{}{map[string]interface{}{"n": id}, map[string]interface{}{"n": id + 1}}
 	}
 	panic("harness: no value for " + kind)
 }
@@ -295,6 +318,25 @@ func emptyApplies(src, kind string) bool {
 func (r *srcRun) judge(src, prop string, res reflect.Value, err error, garbage bool) {
 	if garbage {
 		return // only totality is demanded of garbage input
+	}
+	if r.c.Expect.Over {
+		if err == nil {
+			for _, l := range r.c.Expect.Leaves {
+				if l.Pat == "over" {
+					txt, _ := overValue(l.Kind)
+					fv, set := r.locate(res, l.ID)
+					got := "unset"
+					if set {
+						for fv.Kind() == reflect.Ptr {
+							fv = fv.Elem()
+						}
+						got = fmt.Sprint(fv.Interface())
+					}
+					r.add(prop, src, "leaf %d (%s) was given %s, which is outside its type's range, but the source reported no error (leaf: %s)", l.ID, l.Kind, txt, got)
+				}
+			}
+		}
+		return
 	}
 	anyAliasBoth := r.c.Expect.Error
 	if anyAliasBoth {
@@ -423,7 +465,7 @@ func (r *srcRun) guard(src string, f func()) {
 
 func (r *srcRun) runEnv() {
 	for _, l := range r.c.Expect.Leaves {
-		if l.Kind == "time" || l.Kind == "durs" {
+		if l.Kind == "time" || l.Kind == "durs" || l.Kind == "structs" {
 			return // not a string-castable leaf: outside the environment source's domain
 		}
 	}
@@ -446,7 +488,10 @@ func (r *srcRun) runEnv() {
 				prim = "PFX_" + prim
 			}
 		}
-		if l.Pat == "primary" || l.Pat == "both" || l.Pat == "bothempty" {
+		if l.Pat == "over" && r.c.Garbage == "" {
+			text, _ = overValue(l.Kind)
+		}
+		if l.Pat == "primary" || l.Pat == "both" || l.Pat == "bothempty" || l.Pat == "over" {
 			set(prim, text)
 		}
 		if l.Pat == "alias" || l.Pat == "both" || l.Pat == "bothempty" {
@@ -479,7 +524,7 @@ type flagger interface {
 func (r *srcRun) runFlags(which string) {
 	var args []string
 	for _, l := range r.c.Expect.Leaves {
-		if l.Kind == "durs" {
+		if l.Kind == "durs" || l.Kind == "structs" {
 			return // no flag is registered for this kind
 		}
 	}
@@ -496,7 +541,10 @@ func (r *srcRun) runFlags(which string) {
 				prim = fmt.Sprintf("pflagx-%d", l.ID)
 			}
 		}
-		if l.Pat == "primary" || l.Pat == "both" || l.Pat == "bothempty" {
+		if l.Pat == "over" && r.c.Garbage == "" {
+			text, _ = overValue(l.Kind)
+		}
+		if l.Pat == "primary" || l.Pat == "both" || l.Pat == "bothempty" || l.Pat == "over" {
 			args = append(args, "--"+prim+"="+text)
 		}
 		if l.Pat == "alias" || l.Pat == "both" || l.Pat == "bothempty" {
@@ -586,6 +634,9 @@ func (r *srcRun) docTree() (map[string]interface{}, bool) {
 			if f.Pat == "primary" || f.Pat == "both" {
 				m[key] = doc
 			}
+			if f.Pat == "over" {
+				_, m[key] = overValue(f.Kind)
+			}
 			if f.Pat == "alias" || f.Pat == "both" || f.Pat == "bothempty" {
 				m[strings.Join(f.Alias, "_")] = doc
 			}
@@ -607,6 +658,21 @@ func tomlText(m map[string]interface{}, path string, b *strings.Builder) {
 	enc := func(v interface{}) string {
 		if s, ok := v.(string); ok && len(s) == 20 && s[4] == '-' && s[10] == 'T' && s[19] == 'Z' {
 			return s // a TOML datetime is written bare
+		}
+		if l, ok := v.([]interface{}); ok && len(l) > 0 {
+			if _, isMap := l[0].(map[string]interface{}); isMap {
+				var items []string
+				for _, e := range l {
+					var kvs []string
+					for k, x := range e.(map[string]interface{}) {
+						j, _ := json.Marshal(x)
+						kvs = append(kvs, fmt.Sprintf("%s = %s", tomlKey(k), j))
+					}
+					sort.Strings(kvs)
+					items = append(items, "{"+strings.Join(kvs, ", ")+"}")
+				}
+				return "[" + strings.Join(items, ", ") + "]"
+			}
 		}
 		j, _ := json.Marshal(v)
 		return string(j)
@@ -690,8 +756,19 @@ func (r *srcRun) runDecoders() {
 	}
 	decs := map[string]dials.Decoder{"json": &djson2.Decoder{}, "yaml": &yaml.Decoder{}, "toml": &toml.Decoder{}, "cue": &cue.Decoder{}}
 	results := map[string]reflect.Value{}
+	// go-toml v1 has no accepted spelling for an explicitly empty list of tables ("key = []" is rejected for a slice of
+	// structs before dials sees anything): such a case is not expressible in all four formats
+	tomlOut := false
+	for _, l := range r.c.Expect.Leaves {
+		if l.Kind == "structs" && (l.Pat == "empty" || l.Pat == "bothempty") {
+			tomlOut = true
+		}
+	}
 	for _, name := range []string{"json", "yaml", "toml", "cue"} {
 		name := name
+		if name == "toml" && tomlOut && r.c.Garbage == "" {
+			continue
+		}
 		r.guard(name, func() {
 			dec := sourcewrap.NewTransformingDecoder(decs[name], transform.NewAliasMangler("dials"), &transform.SetSliceMangler{})
 			src := &static.StringSource{Data: docs[name], Decoder: dec}
